@@ -100,3 +100,24 @@ fn extract_meta_var_len4() {
 fn extract_meta_var_len6() {
   check_extract::<6>();
 }
+
+/// the ellipsis spellings `$$$`, `$$$x`, `$$$xy` (x, y over the alphabet): cheap enough for the quick tier
+#[kani::proof]
+#[kani::unwind(7)]
+fn extract_meta_var_ellipsis5() {
+  let mut buf = [b'$'; 5];
+  let len: usize = kani::any();
+  kani::assume(3 <= len && len <= 5);
+  for i in 3..5 {
+    let k: usize = kani::any();
+    kani::assume(k < ALPHA.len());
+    buf[i] = ALPHA[k];
+  }
+  let s = unsafe { std::str::from_utf8_unchecked(&buf[..len]) };
+  let got = extract_meta_var(s, '$');
+  let (class, start) = reference(s.as_bytes(), b'$');
+  assert!(classify(&got) == class);
+  if let Some(MetaVariable::MultiCapture(name)) = &got {
+    assert!(name.as_bytes() == &s.as_bytes()[start..]);
+  }
+}
